@@ -23,13 +23,22 @@ fn main() {
             let id = args.get(2).cloned().unwrap_or_else(|| usage());
             let tier = std::env::var("VERIF_TIER").ok().filter(|t| t == "quick" || t == "thorough").or(args.get(3).cloned()).unwrap_or_else(|| "quick".into());
             let mut cx = report::Ctx::new(&id, &tier, repo, verif);
-            match id.as_str() {
-                "C01" => rules::c01::run(&mut cx),
-                "C12" => rules::c12::run(&mut cx),
-                _ => {
-                    eprintln!("no check for {}", id);
-                    std::process::exit(2)
+            let known_ids = ["C01", "C02", "C12"];
+            if !known_ids.contains(&id.as_str()) {
+                eprintln!("no check for {}", id);
+                std::process::exit(2)
+            }
+            // a panic inside a rule is a checker defect: fail closed with a VIOLATION line
+            let r = std::panic::catch_unwind(std::panic::AssertUnwindSafe(|| {
+                match id.as_str() {
+                    "C01" => rules::c01::run(&mut cx),
+                    "C02" => rules::c02::run(&mut cx),
+                    "C12" => rules::c12::run(&mut cx),
+                    _ => unreachable!(),
                 }
+            }));
+            if r.is_err() {
+                cx.fail("checker", &format!("{}/checker-panic", id), "", "a rule panicked while analysing the tree (unrecognised shape); failing closed");
             }
             std::process::exit(cx.finish());
         }
